@@ -88,6 +88,8 @@ def _parse_op(rng, cfg, modes, p=None):
         op['strpath'] = True
     elif r < 0.25:
         op['fio'] = True
+    elif r < 0.33:
+        op['givecode'] = rng.choice(['bytes', 'str'])      # code= and path= together (no yields inside)
     return op
 
 
@@ -309,6 +311,8 @@ def _diff_parse(cfg, fsmode, f, g, mode, text):
     op = {'k': 'parse', 'p': 0, 'f': f, 'g': g, 'c': 0, 'm': mode, 't': []}
     if not fsmode:
         op['code'] = text
+        if len(text) % 5 == 0:
+            op['as_bytes'] = True          # the same text handed over as utf-8 bytes
     return op
 
 
